@@ -15,6 +15,7 @@ import sympy as sp
 
 from . import atoms
 from . import exceptions
+from . import _verif
 from .ode_component import BaseComponent, Component
 
 T = TypeVar("T")
@@ -267,6 +268,8 @@ def sort_assignments(
         If an assignment has a None value
     """
     sorter: TopologicalSorter = TopologicalSorter()
+    if _verif.enabled():
+        sorter = _verif.LoggingSorter()
     assignment_names = set()
     for assignment in assignments:
         assignment_names.add(assignment.name)
@@ -282,6 +285,8 @@ def sort_assignments(
 
     if assignments_only:
         static_order = tuple([name for name in static_order if name in assignment_names])
+    if _verif.enabled():
+        _verif.emit("SortOrder", order=list(static_order), assignments_only=assignments_only)
 
     return static_order
 
